@@ -32,6 +32,9 @@ structure Cfg where
   total : Nat
   req : Name → Nat
   tolerant : Bool
+  /-- `release` also calls `aio_notify()` when the token file it wants to delete is already gone
+      (reclaimed by a foreign watcher): the repair of the lost-notification finding. -/
+  notifyMissing : Bool
 
 structure PSt where
   cache : List Name := []
@@ -140,7 +143,7 @@ def apply (cfg : Cfg) (s : St) : Ev → St × Out
     if f ∈ P.cache then
       let P := { P with cache := P.cache.erase f, avail := P.avail + (cfg.req f : Nat) }
       ({ s with disk := rmFile f s.disk, procs := broadcast (upd s.procs p P) (.deleted f) }, { notify := true })
-    else ({ s with procs := upd s.procs p P }, { ok := false })
+    else ({ s with procs := upd s.procs p P }, { ok := false, notify := cfg.notifyMissing })
   | .fsEvent p =>
     let P := s.procs p
     match P.pending with
